@@ -224,7 +224,7 @@ theorem pkgStep_spec (deleted : A → Bool) {sortV : List (Ver K A) → List (Ve
   by_cases hdel : deleted a.attrs = true
   · -- a deleted version is not added at all
     have hm : mine deleted pk (pre ++ [a]) = mine deleted pk pre := by
-      simp [mine_append, mine, live, hdel]
+      simp [mine, live, hdel]
     have hma : mentions deleted pk a = false := by simp [mentions, live, hdel]
     simp [hdel, versionsSpec, hm, any_append, hma]
   · have hlive : live deleted a = true := by simp [live, hdel]
@@ -233,7 +233,7 @@ theorem pkgStep_spec (deleted : A → Bool) {sortV : List (Ver K A) → List (Ve
     · -- a version of this package: fresh key, appended, sorted
       simp only [e, if_true]
       have hm : mine deleted pk (pre ++ [a]) = mine deleted pk pre ++ [verOf a] := by
-        simp [mine_append, mine, hlive, e]
+        simp [mine, hlive, e]
       have hnd := mine_keys_nodup deleted pk (pre ++ [a]) hk
       rw [hm] at hnd
       have hfresh : (verOf a).key ∉ (mine deleted pk pre).map Ver.key := by
@@ -250,8 +250,6 @@ theorem pkgStep_spec (deleted : A → Bool) {sortV : List (Ver K A) → List (Ve
           cases h : mine deleted pk pre with
           | nil => rfl
           | cons x xs => rw [h] at hemp; cases hemp
-        have : ((if adds_any : pre.any (mentions deleted pk) = true then some ([] : List (Ver K A)) else none).getD []) = [] := by
-          split <;> rfl
         simp only [hnil, isEmpty_nil, if_true, nil_append]
         have hgd : ((if pre.any (mentions deleted pk) = true then some ([] : List (Ver K A)) else none).getD []) = [] := by
           split <;> rfl
@@ -268,7 +266,7 @@ theorem pkgStep_spec (deleted : A → Bool) {sortV : List (Ver K A) → List (Ve
     · -- another package: at most the "ensure the dependency's package exists" effect
       simp only [e, if_false]
       have hm : mine deleted pk (pre ++ [a]) = mine deleted pk pre := by
-        simp [mine_append, mine, e]
+        simp [mine, e]
       have hany : (sortD a.deps).any (fun d => decide (d.1 = pk)) = a.deps.any (fun d => decide (d.1 = pk)) :=
         (hD a.deps).any_eq
       have hment : mentions deleted pk a = a.deps.any (fun d => decide (d.1 = pk)) := by
